@@ -150,6 +150,46 @@ impl ColorPainter for CollectFillGlyphPainter<'_> {
     }
 }
 
+/// Returns true if the graph below `paint` may consist only of transforms
+/// and fills, which is the shape the `fill_glyph` optimization handles.
+fn may_be_fill_only(paint: &ResolvedPaint, instance: &ColrInstance, depth: usize) -> bool {
+    if depth >= MAX_TRAVERSAL_DEPTH {
+        return false;
+    }
+    match paint {
+        ResolvedPaint::Solid { .. }
+        | ResolvedPaint::LinearGradient { .. }
+        | ResolvedPaint::RadialGradient { .. }
+        | ResolvedPaint::SweepGradient { .. } => true,
+        ResolvedPaint::Transform {
+            paint: next_paint, ..
+        }
+        | ResolvedPaint::Translate {
+            paint: next_paint, ..
+        }
+        | ResolvedPaint::Scale {
+            paint: next_paint, ..
+        }
+        | ResolvedPaint::Rotate {
+            paint: next_paint, ..
+        }
+        | ResolvedPaint::Skew {
+            paint: next_paint, ..
+        } => resolve_paint(instance, next_paint)
+            .map(|next| may_be_fill_only(&next, instance, depth + 1))
+            .unwrap_or(false),
+        ResolvedPaint::ColrLayers { range } => range.clone().all(|layer_index| {
+            instance
+                .v1_layer(layer_index)
+                .ok()
+                .and_then(|(layer_paint, _)| resolve_paint(instance, &layer_paint).ok())
+                .map(|layer| may_be_fill_only(&layer, instance, depth + 1))
+                .unwrap_or(false)
+        }),
+        _ => false,
+    }
+}
+
 pub(crate) fn traverse_with_callbacks(
     paint: &ResolvedPaint,
     instance: &ColrInstance,
@@ -477,30 +517,37 @@ pub(crate) fn traverse_with_callbacks(
 
         ResolvedPaint::Glyph { glyph_id, paint } => {
             let glyph_id = (*glyph_id).into();
-            let mut optimizer = CollectFillGlyphPainter::new(painter, glyph_id);
-            let mut result = traverse_with_callbacks(
-                &resolve_paint(instance, paint)?,
-                instance,
-                &mut optimizer,
-                decycler,
-                resolved_stops,
-                recurse_depth + 1,
-            );
-
-            // In case the optimization was not successful, just push a clip, and continue unoptimized traversal.
-            if !optimizer.optimization_success {
-                painter.push_clip_glyph(glyph_id);
-                result = traverse_with_callbacks(
-                    &resolve_paint(instance, paint)?,
+            let child = resolve_paint(instance, paint)?;
+            // Only attempt the optimization when the subgraph can consist of
+            // fills and transforms alone. Attempting it unconditionally
+            // traverses the child twice whenever it fails, which makes the
+            // work exponential in the number of nested PaintGlyph tables.
+            if may_be_fill_only(&child, instance, recurse_depth + 1) {
+                let mut optimizer = CollectFillGlyphPainter::new(painter, glyph_id);
+                let result = traverse_with_callbacks(
+                    &child,
                     instance,
-                    painter,
+                    &mut optimizer,
                     decycler,
                     resolved_stops,
                     recurse_depth + 1,
                 );
-                painter.pop_clip();
+                if optimizer.optimization_success {
+                    return result;
+                }
             }
 
+            // In case the optimization was not successful, just push a clip, and continue unoptimized traversal.
+            painter.push_clip_glyph(glyph_id);
+            let result = traverse_with_callbacks(
+                &child,
+                instance,
+                painter,
+                decycler,
+                resolved_stops,
+                recurse_depth + 1,
+            );
+            painter.pop_clip();
             result
         }
         ResolvedPaint::ColrGlyph { glyph_id } => {
